@@ -1863,12 +1863,13 @@ bool TypeChecker::checkExpression(expression_t expr)
         break;
 
     case NEQ:
-        if (areEqCompatible(expr[0].get_type(), expr[1].get_type())) {
-            type = type_t::create_primitive(Constants::BOOL);
-        } else if ((is_clock(expr[0]) && is_clock(expr[1])) || (is_clock(expr[0]) && is_integer(expr[1])) ||
-                   (is_integer(expr[0]) && is_clock(expr[1])) || (is_diff(expr[0]) && is_integer(expr[1])) ||
-                   (is_integer(expr[0]) && is_diff(expr[1]))) {
+        // A disequality over a clock or a clock difference is a (non-convex) constraint whatever it is
+        // compared with: another clock, an integer or a floating-point value.
+        if ((is_clock(expr[0]) && is_number(expr[1])) || (is_number(expr[0]) && is_clock(expr[1])) ||
+            (is_diff(expr[0]) && is_number(expr[1])) || (is_number(expr[0]) && is_diff(expr[1]))) {
             type = type_t::create_primitive(CONSTRAINT);
+        } else if (areEqCompatible(expr[0].get_type(), expr[1].get_type())) {
+            type = type_t::create_primitive(Constants::BOOL);
         } else if (is_number(expr[0]) && is_number(expr[1])) {
             type = type_t::create_primitive(Constants::BOOL);
         }
@@ -1886,6 +1887,8 @@ bool TypeChecker::checkExpression(expression_t expr)
             type = type_t::create_primitive(GUARD);
         } else if (is_clock(expr[0]) && is_number(expr[1])) {
             type = type_t::create_primitive(GUARD);
+        } else if ((is_diff(expr[0]) && is_number(expr[1])) || (is_number(expr[0]) && is_diff(expr[1]))) {
+            type = type_t::create_primitive(GUARD);  // a clock difference bounded by a floating-point value
         } else if (is_number(expr[0]) && is_number(expr[1])) {
             type = type_t::create_primitive(Constants::BOOL);
         }
